@@ -6,9 +6,13 @@ Import ListNotations.
 (* strings are lists of code points *)
 Notation str := (list Z).
 
-(* value of a worksheet cell: None | str | int | bool *)
+(* value of a worksheet cell: None | str | int | bool, or any other python value (a float, a
+   datetime, ...) described by what ak/xlsread.py can observe of it: the text of str(v), and the int
+   it is == to (and hashes like), if any: 2.0 -> COther "2.0" (Some 2), 2.5 -> COther "2.5" None.
+   Such a value is not an int (CellInt rejects it) and has no .split (CellList / CellSet reject it). *)
 Inductive cval : Type :=
 | CNone
 | CStr (s : str)
 | CInt (z : Z)
-| CBool (b : bool).
+| CBool (b : bool)
+| COther (txt : str) (num : option Z).
